@@ -281,6 +281,12 @@ func (e *Engine) contractFor(fn *ssa.Function) *Contract {
 	if c, ok := e.specs.Contracts[pkg+"::"+e.relName(fn)]; ok {
 		return c
 	}
+	// an instance of a generic function of another package (reflect.TypeFor[T]): the contract is keyed without type arguments
+	if len(fn.TypeArgs()) > 0 {
+		if c, ok := e.specs.Contracts[pkg+"."+e.relName(fn)]; ok {
+			return c
+		}
+	}
 	return nil
 }
 
@@ -306,6 +312,15 @@ func (e *Engine) typeTag(t types.Type) *Term {
 	e.typeTags[k] = x
 	e.tagNames[x.Val.String()] = k
 	return x
+}
+
+// typeArgTag is the type tag of a type argument: a constant for a concrete type, an uninterpreted constant for a type
+// parameter of the generic function under verification.
+func (e *Engine) typeArgTag(t types.Type) *Term {
+	if tp, ok := types.Unalias(t).(*types.TypeParam); ok {
+		return e.tb.App("tptag:"+tp.Obj().Name(), BV64)
+	}
+	return e.typeTag(t)
 }
 
 func (e *Engine) pos(p token.Pos) token.Position {
